@@ -671,13 +671,24 @@ def rule_bm(repo: Repo, rep: Report) -> int:
     n += 2
     fwd = repo.method(ci, "forward")
     cl = fwd.nested("decode_block")
-    if cl is None:
+    wst_, wd_ = bm_forward_evaluated(repo, ci)
+    if wst_ is not None:
+        # the whole decoding chain run on words of the (15,7) two-error-correcting BCH code: supersedes the recognition of its statements
+        rep.add("BM", fwd, "forward evaluated over GF(16) on codewords of the (15,7) BCH code with 0, 1 and 2 flipped bits", wst_, wd_, node=fwd.node)
+        n += 2
+        cl = False
+    if cl is False:
+        pass
+    elif cl is None:
         rep.undecided("BM", fwd, "decode_block", "closure not found")
         return n + 1
-    body = statement_texts(cl)
-    rep.expect("corrected[pos] = 1.0 - corrected[pos]" in body and "error_positions = self._find_error_locations(error_locator)" in body and "error_locator = self.berlekamp_massey_algorithm(syndrome)" in body and "syndrome = self.encoder.calculate_syndrome_polynomial(r_field)" in body and "decoded[i] = self.encoder.extract_message(corrected)" in body, "BM", cl, "syndrome -> locator -> Chien positions -> flip exactly those bits -> encoder.extract_message", "the decoding chain", "decoding chain changed")
-    zero = [s for s in stmts_of(cl.body) if isinstance(s, ast.If) and unparse(s.test) == "all((s == self.field.zero for s in syndrome))"]
-    if len(zero) != 1:
+    body = statement_texts(cl) if cl else []
+    if cl:
+      rep.expect("corrected[pos] = 1.0 - corrected[pos]" in body and "error_positions = self._find_error_locations(error_locator)" in body and "error_locator = self.berlekamp_massey_algorithm(syndrome)" in body and "syndrome = self.encoder.calculate_syndrome_polynomial(r_field)" in body and "decoded[i] = self.encoder.extract_message(corrected)" in body, "BM", cl, "syndrome -> locator -> Chien positions -> flip exactly those bits -> encoder.extract_message", "the decoding chain", "decoding chain changed")
+    zero = [s for s in stmts_of(cl.body) if isinstance(s, ast.If) and unparse(s.test) == "all((s == self.field.zero for s in syndrome))"] if cl else []
+    if not cl:
+        pass
+    elif len(zero) != 1:
         # another spelling of the shortcut's test: it is evaluated on syndrome vectors over GF(16) (own field model): it
         # may hold for the all-zero vector only - field addition is XOR, so "the components sum to zero" is NOT that test
         zst, zd = zero_syndrome_test_evaluated(cl)
@@ -687,7 +698,7 @@ def rule_bm(repo: Repo, rep: Report) -> int:
             rep.add("BM", cl, "zero-syndrome shortcut: its test evaluated on syndrome vectors over GF(16)", zst, zd)
     else:
         rep.ok("BM", cl, "zero syndrome: the word is returned uncorrected", "codewords are not modified")
-    n += 2
+    n += 2 if cl else 0
     alg = repo.method(ci, "berlekamp_massey_algorithm")
     est_, ed_ = bm_evaluated(alg)
     if est_ in (OK, VIOLATION):
@@ -770,6 +781,86 @@ def hamming_position_evaluated(sp: FuncInfo):
                     return VIOLATION, f"({nn},{k}) Hamming code with information set {info}: the syndrome {[int(x) for x in syn]} is column {j} of the published H, so a single error there must be located at position {want}; the function returns {got!r} (a clean information bit is flipped instead of the corrupted one)" if j is not None else f"({nn},{k}) Hamming code: the zero syndrome is answered with position {got!r} instead of 'no error' ({nn})"
                 count += 1
     return OK, f"position j for the syndrome H[:, j], n for the zero syndrome, on {count} (code, layout, column) cases"
+
+
+def bm_forward_evaluated(repo: Repo, ci):
+    """BerlekampMasseyDecoder.forward (class helpers and the block-wise utility followed; field and elements modelled by
+    gf2.FieldModel over GF(16); the encoder's syndrome polynomial S_i = r(alpha^i), i = 1..2t, and its message extraction
+    replaced by the checker's own) evaluated on three codewords of the (15,7) BCH code with generator 0b111010001, each
+    unchanged, with every single flipped bit and with 24 pairs of flipped bits: the transmitted codeword's message must
+    come back (and, with return_errors=True, the flipped positions)."""
+    from .. import gf2
+    from ..constfold import PySeq, Unfoldable
+    from ..frag import FragRaise, FragReturn, run_fragment
+
+    fwd = repo.method(ci, "forward")
+    field = gf2.FieldModel(4, 0b10011)
+    alpha = gf2.FieldElem(field, 2)
+    n_, k_, t_ = 15, 7, 2
+    g = 0b111010001
+    pw = [gf2.FieldElem(field, 1)] + [alpha ** e for e in range(1, 15)]
+
+    def synd(r_field, *a, **kw):
+        out = []
+        for i in range(1, 2 * t_ + 1):
+            acc = gf2.FieldElem(field, 0)
+            for j, b in enumerate(r_field):
+                v = b.value if isinstance(b, gf2.FieldElem) else int(round(float(b)))
+                if v & 1:
+                    acc = acc + pw[(i * j) % 15]
+            out.append(acc)
+        return PySeq(out)
+
+    def extract(w, *a, **kw):
+        if isinstance(w, list) and w and isinstance(w[0], list):
+            return [list(r[n_ - k_ :]) for r in w]
+        return list(w[n_ - k_ :])
+
+    funcs = {f"self.{nm}": m.node for nm, m in ci.methods.items() if nm not in ("forward", "__init__")}
+    for mi_ in repo.modules.values():
+        if mi_.relpath == "kaira/models/fec/utils.py":
+            funcs.update({nm: f.node for nm, f in mi_.functions.items()})
+    attrs0 = {"self.code_length": n_, "self.code_dimension": k_, "self.t": t_, "self.field": field, "self.field.primitive_element()": alpha}
+    ctors = {"self.encoder.calculate_syndrome_polynomial": synd, "self.encoder.extract_message": extract}
+    words, wants, errs = [], [], []
+    pairs = [(0, 14), (0, 1), (7, 8), (3, 11), (13, 14), (2, 9), (5, 6), (1, 12)]
+    for msg in (0b1011001, 0b0000001, 0b1111111):
+        cwv = gf2.pmul(msg, g)
+        cw = [(cwv >> j) & 1 for j in range(n_)]
+        for flips in [()] + [(j,) for j in range(n_)] + pairs:
+            words.append([float(b ^ (1 if j in flips else 0)) for j, b in enumerate(cw)])
+            wants.append([float(b) for b in cw[n_ - k_ :]])
+            errs.append([1.0 if j in flips else 0.0 for j in range(n_)])
+    for what, rec, want, err, kw in (("batch of 72 words", words, wants, errs, {}), ("batch, return_errors=True", words[:24], wants[:24], errs[:24], {"return_errors": True})):
+        try:
+            run_fragment(fwd.body, {"received": rec, "args": PySeq([]), "kwargs": dict(kw)}, dict(attrs0), funcs=funcs, ctors=ctors, materialise=True, max_steps=20000000, attrs_live=True)
+            return None, "no value returned"
+        except FragReturn as ret:
+            got = ret.value
+        except (Unfoldable, FragRaise, TypeError, IndexError, ValueError, KeyError, ZeroDivisionError) as exc:
+            return None, f"{what}: {exc}"
+        got_err = None
+        if kw:
+            if not (isinstance(got, list) and len(got) == 2):
+                return None, "the result is not a (messages, errors) pair"
+            got, got_err = got
+
+        def num(z):
+            return [num(t) for t in z] if isinstance(z, list) else float(z)
+
+        try:
+            g_, e_ = num(got), (num(got_err) if got_err is not None else None)
+        except (TypeError, ValueError):
+            return None, "the result is not numeric"
+        if not isinstance(g_, list) or len(g_) != len(want):
+            return None, "the result has another layout"
+        for i_, (a_, b_) in enumerate(zip(g_, want)):
+            if a_ != b_:
+                flips = [j for j, v in enumerate(err[i_]) if v]
+                return VIOLATION, f"a codeword of the (15,7) BCH code (t = 2) with the bits {flips or 'none'} flipped is decoded to {a_}; the transmitted message part is {b_}: an error pattern of weight <= t is not corrected"
+        if e_ is not None and e_ != err:
+            return VIOLATION, "with return_errors=True the reported error patterns differ from the flipped positions"
+    return OK, "72 words (3 codewords x none / every single / 8 pairs of flipped bits) are decoded to the transmitted message over GF(16); error patterns reported exactly"
 
 
 def zero_syndrome_test_evaluated(cl: FuncInfo):
